@@ -46,6 +46,17 @@ Example C19_printf_conforms_examples :
      = Ok [32; 43; 52; 52]%N.                                                                                     (* " +44" *)
 Proof. repeat split; reflexivity. Qed.
 
+(* %c of the NUL character is ONE byte (value 0), inside its field: "%3c" -> "  \0", "%-3c" -> "\0  " *)
+Example C19_printf_conforms_char_nul :
+  let d1 := mk_dir None [] (WLit 3) PNone LNone Cc in
+  let d2 := mk_dir None [FMinus] WStar PNone LNone Cc in
+  in_grammar d1 = true /\ fits d1 (mk_av 0 0 0 []) = true
+  /\ frigg_printf d1 (mk_av 0 0 0 []) = Ok [32; 32; 0]%N /\ iso_printf d1 (mk_av 0 0 0 []) = [32; 32; 0]%N
+  /\ in_grammar d2 = true /\ fits d2 (mk_av 3 0 256 []) = true
+  /\ frigg_printf d2 (mk_av 3 0 256 []) = Ok [0; 32; 32]%N
+  /\ frigg_printf (mk_dir (Some 2%N) [] WNone PNone LNone Cc) (mk_av 0 0 0 []) = Ok [0%N].
+Proof. repeat split; reflexivity. Qed.
+
 (* Whole format strings: a format that is a concatenation of literal text (bytes other than NUL and '%') and
    directives of the grammar WITHOUT n$ (and %%), run with the arguments of its directives in order
    (fmt_slots: "*", ".*", the value; a %s item names the address its string lives at in [mem]), prints the
